@@ -1,7 +1,7 @@
 (* C18 -- dc: packets round-trip and only authenticated packets are acted upon.
    Property theorems only; each is closed by [exact] of a lemma proved in proofs/. *)
 From SQ Require Import lib.Base lib.DcBytes gen.Gen_C18.
-From SQ Require model.DcPacket proofs.DcPacketProofs model.DcMap proofs.DcMapProofs.
+From SQ Require model.DcPacket proofs.DcPacketProofs model.DcMap proofs.DcMapProofs model.DcKeys proofs.DcKeysProofs.
 Import DcPacket.
 Local Open Scope N_scope.
 
@@ -246,11 +246,29 @@ Theorem C18_dc_authentic_effects : forall (auth : DcMap.entry -> DcMap.cpkt -> b
   let s' := DcMap.handle auth s p in
   DcMap.m_acc s' = DcMap.m_acc s + 1 /\
   (DcMap.c_kind p = 0 -> DcMap.m_hs s' = DcMap.m_hs s + 1 /\
-      DcMap.m_entries s' = if DcMap.m_evict s && DcMap.e_aged e then DcMap.remove (DcMap.c_id p) (DcMap.m_entries s) else DcMap.m_entries s) /\
-  (DcMap.c_kind p = 1 -> DcMap.m_hs s' = DcMap.m_hs s /\
-      DcMap.m_entries s' = DcMap.update (DcMap.c_id p) (DcMap.mk_entry (N.max (DcMap.e_cur e) (DcMap.c_val p)) (DcMap.e_aged e)) (DcMap.m_entries s)) /\
-  (2 <= DcMap.c_kind p -> DcMap.m_hs s' = DcMap.m_hs s + 1 /\ DcMap.m_entries s' = DcMap.m_entries s).
+      DcMap.m_entries s' = (if DcMap.m_evict s && DcMap.e_aged e then DcMap.remove (DcMap.c_id p) (DcMap.m_entries s) else DcMap.m_entries s) /\
+      DcMap.m_peers s' = (if DcMap.m_evict s && DcMap.e_aged e then DcMap.remove_exact (DcMap.e_peer e) (DcMap.c_id p) (DcMap.m_peers s) else DcMap.m_peers s)) /\
+  (DcMap.c_kind p = 1 -> DcMap.m_hs s' = DcMap.m_hs s /\ DcMap.m_peers s' = DcMap.m_peers s /\
+      DcMap.m_entries s' = DcMap.update (DcMap.c_id p) (DcMap.mk_entry (N.max (DcMap.e_cur e) (DcMap.c_val p)) (DcMap.e_aged e) (DcMap.e_peer e)) (DcMap.m_entries s)) /\
+  (2 <= DcMap.c_kind p -> DcMap.m_hs s' = DcMap.m_hs s + 1 /\ DcMap.m_entries s' = DcMap.m_entries s /\ DcMap.m_peers s' = DcMap.m_peers s).
 Proof. exact DcMapProofs.authentic_effects. Qed.
+
+(* eviction is exact: handling a packet that names credential id X -- authentic or not -- leaves
+   every other credential id's entry untouched, and every peer address whose current secret is
+   not X keeps its binding (PeerMap::remove_exact compares by credential id, not by address) *)
+Theorem C18_dc_handle_touches_only_named : forall (auth : DcMap.entry -> DcMap.cpkt -> bool) s p,
+  (forall id, id <> DcMap.c_id p ->
+     DcMap.lookup id (DcMap.m_entries (DcMap.handle auth s p)) = DcMap.lookup id (DcMap.m_entries s)) /\
+  (forall a i, DcMap.plookup a (DcMap.m_peers s) = Some i -> i <> DcMap.c_id p ->
+     DcMap.plookup a (DcMap.m_peers (DcMap.handle auth s p)) = Some i).
+Proof. exact DcMapProofs.handle_touches_only_named. Qed.
+
+(* after a re-handshake with a peer address, an UnknownPathSecret (or any other) packet naming an
+   older secret cannot remove the newer secret from the address map *)
+Theorem C18_dc_rehandshake_then_old_ups : forall (auth : DcMap.entry -> DcMap.cpkt -> bool) s a aged p,
+  DcMap.c_id p <> DcMap.m_next s ->
+  DcMap.plookup a (DcMap.m_peers (DcMap.handle auth (DcMap.rehandshake s a aged) p)) = Some (DcMap.m_next s).
+Proof. exact DcMapProofs.rehandshake_then_old_ups. Qed.
 
 Theorem C18_map_judge_model : forall case, DcMap.judge case (DcMap.run case) = true.
 Proof. exact DcMapProofs.judge_run. Qed.
@@ -259,6 +277,33 @@ Theorem C18_map_run_forged_no_effect : forall mode s p, mode <> 0 ->
   DcMap.proj (DcMap.handle (DcMap.case_auth mode) s p) = DcMap.proj s /\
   DcMap.m_acc (DcMap.handle (DcMap.case_auth mode) s p) = DcMap.m_acc s.
 Proof. exact DcMapProofs.run_forged_no_effect. Qed.
+
+(* ---- receiver key state: the rotating application opener (path/secret/key.rs, stream/crypto.rs) *)
+(* a packet that opens under neither key the receiver holds is rejected and leaves the key state
+   (generation / rotation of the opener) unchanged, whatever its key-phase bit *)
+Theorem C18_pkt_forged_key_state_unchanged : forall (opens : N -> DcKeys.kpkt -> bool) s p,
+  (forall g, opens g p = false) -> DcKeys.recv opens s p = (s, false).
+Proof. exact DcKeysProofs.forged_key_state_unchanged. Qed.
+
+(* the opener rotates only after a packet opened under the next generation's key *)
+Theorem C18_pkt_rotation_only_if_opened : forall (opens : N -> DcKeys.kpkt -> bool) s p,
+  fst (DcKeys.recv opens s p) <> s ->
+  opens (DcKeys.k_recv_gen s + 1) p = true /\ snd (DcKeys.recv opens s p) = true.
+Proof. exact DcKeysProofs.rotation_only_if_opened. Qed.
+
+(* all histories: a forged packet anywhere in a history leaves the final key state that of the
+   history without it *)
+Theorem C18_pkt_forged_history_key_state : forall (opens : N -> DcKeys.kpkt -> bool) ps s p qs,
+  (forall g, opens g p = false) ->
+  fst (DcKeysProofs.deliver opens s (ps ++ p :: qs)) = fst (DcKeysProofs.deliver opens s (ps ++ qs)).
+Proof. exact DcKeysProofs.forged_history_key_state. Qed.
+
+Theorem C18_keys_judge_model : forall case, DcKeys.judge case (DcKeys.run case) = true.
+Proof. exact DcKeysProofs.judge_run. Qed.
+
+Theorem C18_keys_run_forged_no_effect : forall gs s p,
+  DcKeys.recv (DcKeys.case_opens gs true) s p = (s, false).
+Proof. exact DcKeysProofs.run_forged_no_effect. Qed.
 
 Print Assumptions C18_sc_constants.
 Print Assumptions C18_sc_roundtrip.
@@ -295,3 +340,10 @@ Print Assumptions C18_datagram_parse_injective.
 Print Assumptions C18_control_parse_injective.
 Print Assumptions C18_stream_fields_of_header.
 Print Assumptions C18_pkt_rt_refuted.
+Print Assumptions C18_dc_handle_touches_only_named.
+Print Assumptions C18_dc_rehandshake_then_old_ups.
+Print Assumptions C18_pkt_forged_key_state_unchanged.
+Print Assumptions C18_pkt_rotation_only_if_opened.
+Print Assumptions C18_pkt_forged_history_key_state.
+Print Assumptions C18_keys_judge_model.
+Print Assumptions C18_keys_run_forged_no_effect.
